@@ -65,6 +65,16 @@ def camel(ident):
     return ws[0].lower() + "".join(w[:1].upper() + w[1:].lower() for w in ws[1:])
 
 
+def effkey(d, f, v=None):
+    """the key a field is read from (only used to aim payloads; the specification decides): rename, else the identifier under the
+    rename_all of the struct / of the variant itself"""
+    if f.get("rename") is not None:
+        return f["rename"]
+    rule = (v or {}).get("rename_all") if d["kind"] == "enum" else d.get("rename_all")
+    i = G.unraw(f["ident"])
+    return camel(i) if rule == "camelCase" else (i.lower() if rule == "lowercase" else i)
+
+
 def transposed(s):
     """a near-miss one adjacent transposition away (what a did-you-mean suggestion is for)"""
     if len(s) < 2:
